@@ -7,7 +7,7 @@ OFF = dict(MATH, **{'Clipper2Lib::ClipperOffset::AddPaths(': 'stub_off_addpaths'
 META = dict(
   level_text='Bounded model checking of the real validation code (CheckPrecisionRange, ScalePaths range check, ScalePath zero-scale check, the PathsD wrappers, NoClip) for all argument values: bit-precise IEEE doubles for the range checks, all 2^32 precision values. The wrappers are checked by stub-and-observe (engine replaced by recorders at IR level).',
   level_note='Configuration checked: exceptions disabled (-fno-exceptions), where DoError is a no-op and errors are reported through error codes / empty results; the throwing configuration is outside the claim (the translator does not lower invoke/landingpad). std::pow/std::ilogb are replaced by table contracts validated natively each run (self-test). The success clause "Execute returns true for every input" is addressed only through its mechanisms (see C01/C03 obligations), not end-to-end.',
-  functions=['CheckPrecisionRange', 'ScalePaths<long,double>', 'ScalePath<long,double>', 'GetBounds<double,double>', 'BooleanOp(PathsD)', 'InflatePaths(PathsD)', 'ClipperD::ClipperD', 'ClipperD::AddSubject/AddClip', 'Clipper64::Execute(NoClip)'],
+  functions=['BooleanOp_PolyTree64', 'BooleanOpD', 'BooleanOp_PolyTreeD (argument validation)', 'CheckPrecisionRange', 'ScalePaths<long,double>', 'ScalePath<long,double>', 'GetBounds<double,double>', 'BooleanOp(PathsD)', 'InflatePaths(PathsD)', 'ClipperD::ClipperD', 'ClipperD::AddSubject/AddClip', 'Clipper64::Execute(NoClip)'],
   assumptions=['finite (non-NaN, non-infinite) input doubles', 'scale 100 (precision 2) for the ScalePaths range obligation', 'one path of two points for the range obligation'],
   outside=['builds with C++ exceptions enabled', 'Execute returns true for all geometry (end-to-end)', 'odd number of coordinates (MakePath) - compile-time/static_assert path'],
 )
